@@ -150,8 +150,14 @@ func (c *StringScanner) Unread() {
 	// Update the current position
 	c.position--
 
-	// Update line and columns (optimization)
-	if c.column > 0 {
+	// Stepping back over the end-of-input slot changes neither line nor column
+	if c.position+1 >= len(c.content) {
+		return
+	}
+
+	// Update line and columns (optimization): only a character that occupies
+	// a column can be undone by decrementing the column
+	if c.column > 0 && c.isColumn(c.charAt(c.position+1)) {
 		c.column--
 		return
 	}
